@@ -86,6 +86,9 @@ func c12Query(spec string, side int) string {
 		return fmt.Sprintf("( member(X, %s), %s ; %s, throw(oops) ).", nums(k), tick, tick)
 	case "inf":
 		return fmt.Sprintf("between(1, 1000000000, X), %s.", tick)
+	case "cut":
+		// only cuts: compiled inline, no predicate is called, the answer carries the nil environment
+		return "!, !."
 	}
 	panic("bad query spec " + spec)
 }
@@ -298,7 +301,7 @@ func genC12Seq(r *rand.Rand, n int, tier string) []string {
 	if tier == "thorough" {
 		maxLen = 7
 	}
-	specs := []string{"fin 0", "fin 1", "fin 2", "fin 3", "err 0", "err 1", "err 2", "inf"}
+	specs := []string{"fin 0", "fin 1", "fin 2", "fin 3", "err 0", "err 1", "err 2", "inf", "cut"}
 	var out []string
 	for _, seq := range c12AllSeqs(maxLen) {
 		for _, sp := range specs {
